@@ -13,4 +13,7 @@ def genCfg : Cfg where
   extRet := C06.extRet
   topSkip := C06.topSkip
 
+/-- which sets persist in the detector between two `Check()` calls, as read from the source on this run -/
+def genPersist : Persist := ⟨C06.persistPost, C06.persistPre⟩
+
 end PlzVerif.Cycle
